@@ -2777,7 +2777,10 @@ def canon_code(t, e):
     raise Refuse("no canonical form for %r" % (t,))
 
 
-def parse_code(t):
+TUPLE_SEPS = [";", "/", "~"]       # separators of (nested) tuples / records in the driver's argument syntax
+
+
+def parse_code(t, depth=0):
     if t == INT:
         return "pInt"
     if t == BOOL:
@@ -2791,16 +2794,26 @@ def parse_code(t):
     if t == LIST(INT):
         return "pSet"
     if isinstance(t, tuple) and t[0] == "list":
-        return "(pListOf %s)" % parse_code(t[1])
+        return "(pListOf %s)" % parse_code(t[1], depth)
     if isinstance(t, tuple) and t[0] == "opt" and t[1] in (INT, BYTES):
-        return "(pOpt %s)" % parse_code(t[1])
+        return "(pOpt %s)" % parse_code(t[1], depth)
     if isinstance(t, tuple) and t[0] == "tuple":
+        if depth >= len(TUPLE_SEPS):
+            raise Refuse("no parser for tuples nested deeper than %d" % len(TUPLE_SEPS))
         n = len(t) - 1
         cs = ["c%d" % i for i in range(n)]
         ys = ["y%d" % i for i in range(n)]
-        return ('(fun s => match s.splitOn ";" with | [%s] => (match %s with | %s => some (%s) | %s => none) | _ => none)'
-                % (", ".join(cs), ", ".join("%s %s" % (parse_code(ct), c) for ct, c in zip(t[1:], cs)),
+        return ('(fun s => match s.splitOn "%s" with | [%s] => (match %s with | %s => some (%s) | %s => none) | _ => none)'
+                % (TUPLE_SEPS[depth], ", ".join(cs),
+                   ", ".join("%s %s" % (parse_code(ct, depth + 1), c) for ct, c in zip(t[1:], cs)),
                    ", ".join("some " + y for y in ys), ", ".join(ys), ", ".join("_" for _ in ys)))
+    if isinstance(t, tuple) and t[0] == "rec":      # a record: its field values in constructor order
+        fields = RECORDS[t[1]]
+        if len(fields) == 0:
+            return '(fun s => if s = "()" then some () else none)'
+        if len(fields) == 1:
+            return parse_code(fields[0][1], depth)
+        return parse_code(TUP(*[ft for _, ft in fields]), depth)
     raise Refuse("no parser for %r" % (t,))
 
 
